@@ -70,6 +70,12 @@ CHECKS.update({
         level_note="Trusted: audit owner table + release audit, scheduler. User panics and raw-lock faults are never combined in one episode.",
         technique="runtime monitoring with panic injection: owner-table, release-audit and key probes after caught unwinds",
     ),
+    "C12": dict(
+        level_text="Fault enumeration by runtime monitoring: for every (shape x mode x API x pre-held pattern) case a dry run counts the raw lock operations of the whole call; then a one-shot panic is injected at every raw-op index in phase before/after (and the persistent per-operation faults of tests/evil_*.rs at every leaf position). After the unwind is caught, rules R1-R5 are evaluated from the audit owner table, the release audit and post-mortem probes (faulted lock must refuse try and make blocking acquisition panic; healthy locks must still work). Three genuine defect clusters were found and repaired (fix: commits ca28fe8, 99bc49a, 6f62146).",
+        design_ref="DESIGN.md §3 C12, §5 D4-D6",
+        level_note="Trusted: audit locks' fault injector + release audit; the faulted lock's own state is exempt from leak accounting except where the caller provably never held it.",
+        technique="runtime monitoring with fault injection in auditing raw locks: exhaustive fault-position enumeration per case",
+    ),
     "C13": dict(
         level_text="Exhaustive enumeration at runtime of the finite quiescent space: every shape of sizes 0..3 (0..4 thorough) x every assignment of {free, read-held, write-held} x try_lock/try_read x try/scoped_try x both wake policies; outcome compared with TryOracle, owner table compared before/after.",
         design_ref="DESIGN.md §3 C13",
